@@ -24,7 +24,8 @@ META = {
             "membership functions of src/mf.c lies in [0,1] (no ordering needed except dsig: equal slopes, centres ordered "
             "with the sign of the slope; refuted without), is exactly 1 on its core and 0 outside its support, is continuous "
             "at every x (stdlib continuity; non-zero widths), monotone on each flank (gauss, gauss2, gbell, sig, trap, tri, "
-            "lins, linz, s, z, pi; psig for slopes of equal sign), lins+linz=1 for all a,b and s+z=1 for a<b, pi and gauss2 "
+            "lins, linz, s, z, pi; dsig under its precondition with the peak at the midpoint of the centres; psig for slopes "
+            "of equal sign), lins+linz=1 for all a,b and s+z=1 for a<b, pi and gauss2 "
             "are their glued pieces, every executed division has a non-zero denominator and every pow stays in its real "
             "domain (unconditionally for the piecewise families, a=b shoulders included); a_mf returns the specific "
             "function for all 13 tags, 0 otherwise, and reads exactly that function's parameters; the as-found lins/linz "
@@ -39,8 +40,8 @@ META = {
             "divisor - so between base+min and base+max active consequent - or exactly the base gain when no rule fires or "
             "the rule base is NULL; the divisor is positive for six operators whenever both inputs have active sets and "
             "for the bounded product iff some pair of active memberships sums above 1; after every run/pos/inc step of "
-            "every history the output is within outmin..outmax.  NOT proved: monotone flanks of dsig and of psig with "
-            "slopes of opposite sign; rounding (binary64) is outside the theorems.  Tie: the SAME Gallina terms instantiated "
+            "every history the output is within outmin..outmax.  NOT proved: monotone flanks of psig with slopes of "
+            "opposite sign; rounding (binary64) is outside the theorems.  Tie: the SAME Gallina terms instantiated "
             "with primitive binary64 floats are evaluated by vm_compute and compared bit for bit with the C built from the "
             "current tree (-O2 -ffp-contract=off, ASan; exp/pow replaced by identical substitutes on both sides): all 13 "
             "functions and the dispatcher on breakpoints and their neighbouring doubles, the operators, table walks, and "
